@@ -463,6 +463,6 @@ func init() {
 			}
 			return fmt.Sprintf("re-run: kvcheck one C17 quick %s\nwitness: %v", v.Unit, v.Witness)
 		},
-		BudgetQuick: 110, BudgetThorough: 900,
+		BudgetQuick: 150, BudgetThorough: 900,
 	})
 }
